@@ -21,6 +21,18 @@ def errRel : PyRt.Err → Scaling.Err → Prop
   | .assert_, .assert => True
   | _, _ => False
 
+/-- `quantise_scale`: everything after `significand, exponent = math.frexp(scale)` and
+    `significand_q31 = int(round_away_zero(significand * (1 << 31)))`, for the values the model assigns to
+    the two opaque results (`frexp` exponent `e + 53`, Q31 significand `sigQ31 m` of a normalised `m·2^e`) -/
+theorem src_quantise_scale_eq_model (m : Nat) (e : Int) (sc : Num) :
+    quantise_scale sc (.py (e + 53)) (.py (sigQ31 m : Nat)) =
+      .ok (.py (quantiseNorm m e).1, .py (quantiseNorm m e).2) := by
+  unfold quantiseNorm
+  generalize ((sigQ31 m : Nat) : Int) = q
+  by_cases hs : 0 ≤ (e + 53 - 31) * -1 ∧ (e + 53 - 31) * -1 < 64
+  · py_exec [quantise_scale, if_pos, if_neg, hs]
+  · py_exec [quantise_scale, if_pos, if_neg, hs]
+
 /-- `reduced_quantise_scale`: everything after `multiplier, shift = quantise_scale(scale)`, for every
     pair the model's `quantiseScale` can return -/
 theorem src_reduced_quantise_scale_eq_model (x : Dbl) (m s : Int) (sc : Num)
